@@ -1,7 +1,9 @@
 package main
 
 import (
+	"fmt"
 	"go/types"
+	"sort"
 	"strings"
 
 	"golang.org/x/tools/go/ssa"
@@ -9,8 +11,8 @@ import (
 
 func init() {
 	register("C42", []string{"."}, runC42)
-	propExplain["C42"] = "Decides lock-discipline clauses of C42 (races are dynamic; this is the static part): every access to a field that DB.mu protects (the fields of the DB.mu struct, minus the documented atomics / pipeline-protected fields) happens with DB.mu held, established by an intra-procedural lock state plus requires-held summaries over static and interface callees, with the calling context of every root (exported entry points, goroutine bodies, callbacks) either holding the lock or documented; the same analysis for the version set's second lock: the MANIFEST writer (versionSet.manifest) and latest.blobFiles, which UpdateVersionLocked mutates while DB.mu is released, are accessed only between logLock and logUnlock; and the documented lock order is respected: no function acquires commitPipeline.mu while it holds DB.mu. (F1) the in-progress flags that serialise work across drops of DB.mu (compact.flushing, versionSet.writing) are set only on the edge where they were tested clear, and only by their owner functions. Does not decide data races on unprotected fields, deadlock freedom in general, or panics."
-	propTechnique["C42"] = "lockset analysis for two locks (SSA lock state + requires-held summaries over the call graph), lock-order check"
+	propExplain["C42"] = "Decides lock-discipline clauses of C42 (races are dynamic; this is the static part): every access to a field that DB.mu protects (the fields of the DB.mu struct, minus the documented atomics / pipeline-protected fields) happens with DB.mu held, established by an intra-procedural lock state plus requires-held summaries over static and interface callees, with the calling context of every root (exported entry points, goroutine bodies, callbacks) either holding the lock or documented; the same analysis for the version set's second lock: the MANIFEST writer (versionSet.manifest) and latest.blobFiles, which UpdateVersionLocked mutates while DB.mu is released, are accessed only between logLock and logUnlock; and the documented lock order is respected: no function acquires commitPipeline.mu while it holds DB.mu. (F1) the in-progress flags that serialise work across drops of DB.mu (compact.flushing, versionSet.writing) are set only on the edge where they were tested clear, and only by their owner functions. (L4) DB.readState.val is read and replaced only with DB.readState's RWMutex held (or after the DB was marked closed). (B1/B2) lock balance: every function leaves every mutex as it found it — for DB.mu, commitPipeline.mu, the manifest log lock, DB.readState and every sync.Mutex/RWMutex field of a struct declared in a loaded engine package: no return with a lock still held, none with one unlock too many; deferred unlocks and re-locks and hand-over helpers are modelled. (L2b) DB.mu is never acquired while EventuallyFileOnlySnapshot.mu is held. Does not decide data races on unprotected fields, deadlock freedom in general, or panics."
+	propTechnique["C42"] = "lockset analysis (SSA lock state + requires-held summaries over the call graph) for four locks, lock-order checks, lock-balance dataflow over every mutex field, flag-ownership guards"
 }
 
 // dbMuExempt: first-level fields of DB.mu that are NOT protected by DB.mu
@@ -93,6 +95,9 @@ func runC42(c *Ctx) {
 	c.Note("C42.L1: %d accesses to DB.mu-protected fields analysed", n)
 	c.Ob("C42.L1", nil, "DB.mu-protected field accesses analysed", "", n > 50, "")
 	runC42L3(c)
+	runC42L4(c)
+	runC42B1(c)
+	runC42B2(c)
 	// F1: the two other "in progress" flags that serialise work across drops of DB.mu are taken
 	// only where they were seen clear: one flush goroutine at a time, one MANIFEST writer at a time.
 	if fn := c.Fn("C42.F1", "p.(*DB).maybeScheduleFlush"); fn != nil {
@@ -145,6 +150,41 @@ func runC42(c *Ctx) {
 	if nOrder < 3 {
 		c.Unresolved("C42.L2", "fewer than 3 commitPipeline.mu.Lock sites found")
 	}
+	// L2b: DB.mu is acquired before EventuallyFileOnlySnapshot.mu (the flush's transition and the
+	// excise path hold DB.mu when they take es.mu); nothing acquires DB.mu — directly, or by
+	// calling a function that locks it — while it holds es.mu.
+	esMu := c.Field("C42.L2", "p.EventuallyFileOnlySnapshot.mu")
+	esLock, esUnlock := mutexIn(esMu, "Lock"), mutexIn(esMu, "Unlock")
+	locksDBMu := map[*ssa.Function]bool{}
+	for _, fn := range pebbleFuncs(c) {
+		if len(instrs(fn, lock)) > 0 {
+			locksDBMu[fn] = true
+		}
+	}
+	takesDBMu := Or(lock, Pred("call of a function that locks DB.mu", func(in ssa.Instruction) bool {
+		call, ok := in.(*ssa.Call)
+		if !ok {
+			return false
+		}
+		cal := call.Common().StaticCallee()
+		return cal != nil && locksDBMu[cal]
+	}))
+	nEs := 0
+	for _, fn := range pebbleFuncs(c) {
+		if len(instrs(fn, esLock)) == 0 {
+			continue
+		}
+		fl := NewFlow(c.P).KillAfter("es.mu-not-held", esLock).After("es.mu-not-held", esUnlock)
+		fl.MaxDepth = 0
+		entry := emptyState()
+		entry.add("es.mu-not-held")
+		res := fl.Analyze(fn, entry)
+		nEs++
+		c.Require("C42.L2", res, takesDBMu, "DB.mu is never acquired while EventuallyFileOnlySnapshot.mu is held", []string{"es.mu-not-held"})
+	}
+	if nEs < 2 {
+		c.Unresolved("C42.L2", "fewer than 2 functions locking EventuallyFileOnlySnapshot.mu found")
+	}
 }
 
 // c42L3Held: functions that touch the MANIFEST writer / the blob-file set and run with the
@@ -191,4 +231,145 @@ func runC42L3(c *Ctx) {
 	}
 	c.Note("C42.L3: %d accesses to manifest-lock-protected fields analysed", n)
 	c.Ob("C42.L3", nil, "manifest-lock-protected field accesses analysed", "", n >= 10, "")
+}
+
+// runC42L4: DB.readState.val — the current read state every reader loads and references — is
+// read and replaced only with DB.readState's RWMutex held (loadReadState takes the reference
+// under the read lock; updateReadStateLocked swaps under the write lock). DB.Close releases the
+// last read state without it: by then the DB is marked closed (d.closed.Store), after which no
+// reader may start; that store is modelled as granting exclusive access.
+func runC42L4(c *Ctx) {
+	rs := c.Field("C42.L4", "p.DB.readState")
+	st, _ := rs.Type().Underlying().(*types.Struct)
+	if st == nil {
+		c.Unresolved("C42.L4", "DB.readState is not a struct")
+		return
+	}
+	var val *types.Var
+	for i := 0; i < st.NumFields(); i++ {
+		if st.Field(i).Name() == "val" {
+			val = st.Field(i)
+		}
+	}
+	if val == nil {
+		c.Unresolved("C42.L4", "DB.readState.val not found")
+		return
+	}
+	funcs := pebbleFuncs(c)
+	site := fieldSites("DB.readState", val)
+	closedStore := MethodOn("Store", "recv.closed")
+	ls := &LockSet{c: c, Rule: "C42.L4",
+		IsLock:      Or(mutexIn(rs, "Lock", "RLock"), closedStore),
+		IsUnlock:    mutexIn(rs, "Unlock", "RUnlock"),
+		Funcs:       funcs,
+		HeldAtEntry: map[string]string{"p.Open": "before Open returns no other goroutine can reach the DB"},
+		Site:        site}
+	ls.Run()
+	n := countSites(funcs, site)
+	c.Note("C42.L4: %d accesses to DB.readState.val analysed", n)
+	c.Ob("C42.L4", nil, "accesses to DB.readState.val analysed", "", n >= 3, "")
+}
+
+// c42Handover: functions that change a mutex's state across their return on purpose.
+var c42Handover = map[string]string{
+	"p.(*versionSet).logLock":                                     "the lock primitive itself",
+	"p.(*versionSet).logUnlock":                                   "the unlock primitive itself",
+	"p.(*versionSet).logUnlockAndInvalidatePickedCompactionCache": "unlock wrapper: releases the manifest log lock its caller took",
+}
+
+// runC42B1: lock balance for DB.mu, commitPipeline.mu, the manifest log lock and DB.readState.
+func runC42B1(c *Ctx) {
+	lock, unlock, _ := dbMuMatchers(c, "C42.B1")
+	commitMu := c.Field("C42.B1", "p.commitPipeline.mu")
+	rs := c.Field("C42.B1", "p.DB.readState")
+	type mtx struct {
+		name         string
+		lock, unlock M
+	}
+	all := []mtx{
+		{"DB.mu", lock, unlock},
+		{"commitPipeline.mu", mutexIn(commitMu, "Lock"), mutexIn(commitMu, "Unlock")},
+		{"the manifest log lock", CallTo("p.(*versionSet).logLock"), CallTo("p.(*versionSet).logUnlock", "p.(*versionSet).logUnlockAndInvalidatePickedCompactionCache")},
+		{"DB.readState", mutexIn(rs, "Lock", "RLock"), mutexIn(rs, "Unlock", "RUnlock")},
+	}
+	n := 0
+	for _, m := range all {
+		n += c.LockBalanceAll("C42.B1", pebbleFuncs(c), m.lock, m.unlock, "every return leaves "+m.name+" as the function found it", c42Handover)
+	}
+	if n < 100 {
+		c.Unresolved("C42.B1", fmt.Sprintf("only %d returns of lock-touching functions examined", n))
+	}
+}
+
+// runC42B2: the same lock-balance rule for EVERY sync.Mutex / sync.RWMutex that is a field of a
+// struct declared in a loaded engine package (found from the type declarations, not from a
+// list), over the functions of the declaring package.
+func runC42B2(c *Ctx) {
+	isMutexType := func(t types.Type) bool {
+		n, ok := t.(*types.Named)
+		if !ok || n.Obj().Pkg() == nil || n.Obj().Pkg().Path() != "sync" {
+			return false
+		}
+		return n.Obj().Name() == "Mutex" || n.Obj().Name() == "RWMutex"
+	}
+	type mu struct {
+		field *types.Var
+		name  string
+		pkg   string
+	}
+	var mus []mu
+	seen := map[*types.Var]bool{}
+	var walkStruct func(st *types.Struct, prefix, pkg string, owner *types.Var, d int)
+	walkStruct = func(st *types.Struct, prefix, pkg string, owner *types.Var, d int) {
+		for i := 0; i < st.NumFields(); i++ {
+			f := st.Field(i)
+			if isMutexType(f.Type()) {
+				target := f
+				nm := prefix + "." + f.Name()
+				if f.Embedded() && owner != nil {
+					target, nm = owner, prefix // the struct field whose struct embeds the mutex
+				}
+				if !seen[target] {
+					seen[target] = true
+					mus = append(mus, mu{target, nm, pkg})
+				}
+				continue
+			}
+			if d < 2 {
+				if inner, ok := f.Type().Underlying().(*types.Struct); ok {
+					if _, named := f.Type().(*types.Named); !named { // anonymous struct field (DB.mu, LogWriter.flusher)
+						walkStruct(inner, prefix+"."+f.Name(), pkg, f, d+1)
+					}
+				}
+			}
+		}
+	}
+	var paths []string
+	for path := range c.P.ByPath {
+		if enginePkg(path) && strings.HasPrefix(path, modPath) {
+			paths = append(paths, path)
+		}
+	}
+	sort.Strings(paths)
+	for _, path := range paths {
+		scope := c.P.ByPath[path].Types.Scope()
+		for _, name := range scope.Names() {
+			tn, ok := scope.Lookup(name).(*types.TypeName)
+			if !ok {
+				continue
+			}
+			if st, ok := tn.Type().Underlying().(*types.Struct); ok {
+				walkStruct(st, tn.Name(), path, nil, 0)
+			}
+		}
+	}
+	n := 0
+	for _, m := range mus {
+		lk, ul := mutexIn(m.field, "Lock", "RLock"), mutexIn(m.field, "Unlock", "RUnlock")
+		n += c.LockBalanceAll("C42.B2", pkgFuncs(c, m.pkg), lk, ul, "every return leaves "+m.name+" as the function found it", c42Handover)
+	}
+	c.Note("C42.B2: %d mutex fields found in the loaded engine packages, %d returns examined", len(mus), n)
+	if len(mus) < 5 || n < 50 {
+		c.Unresolved("C42.B2", fmt.Sprintf("only %d mutex fields / %d returns found", len(mus), n))
+	}
 }
